@@ -1061,3 +1061,89 @@ def check_reshape_order(prog, rep, rels, rule='RESHAPE-C-order'):
                               % key_text(c)[:70], c.lineno)
     rep.instance(rule, {'modules': list(rels), 'functions_scanned': n})
     return n
+
+
+# ---------------------------------------------------------------------------------------------
+# SITE-index-offset: in a function with an index offset parameter (`i_offset`), every site that is
+# looked up (`self.sites[..]`, `self.get_site(..)`) is looked up at an index that depends on that
+# offset; a lookup at the unshifted index asks ANOTHER site (wrong Jordan-Wigner decision on a
+# chain with alternating site types).
+def check_site_index_offset(prog, rep, rels, rule='SITE-index-offset', offset='i_offset'):
+    import ast
+    from .core import params, unparse, key_text
+    n = 0
+    for rel in rels:
+        m = prog.module(rel)
+        rep.unit(m)
+        for q, f in m.functions.items():
+            if offset not in params(f):
+                continue
+            # locals derived from the offset
+            derived = {offset}
+            grown = True
+            while grown:
+                grown = False
+                for st in ast.walk(f):
+                    if isinstance(st, ast.Assign) and len(st.targets) == 1 and isinstance(
+                            st.targets[0], ast.Name) and st.targets[0].id not in derived and any(
+                                isinstance(x, ast.Name) and x.id in derived
+                                for x in ast.walk(st.value)):
+                        derived.add(st.targets[0].id)
+                        grown = True
+            for x in ast.walk(f):
+                idx = None
+                if isinstance(x, ast.Subscript) and unparse(x.value) == 'self.sites':
+                    idx = x.slice
+                elif isinstance(x, ast.Call) and unparse(x.func) == 'self.get_site' and x.args:
+                    idx = x.args[0]
+                if idx is None:
+                    continue
+                n += 1
+                ok = any(isinstance(y, ast.Name) and y.id in derived for y in ast.walk(idx))
+                rep.instance(rule, {'function': q, 'lookup': unparse(x)[:60], 'uses_offset': ok})
+                if not ok:
+                    rep.violation(rule, m, q, 'site-without-offset:' + unparse(idx)[:30],
+                                  '`%s` looks a site up at an index that does not include `%s`, '
+                                  'while the operators of the term act on the shifted sites' %
+                                  (unparse(x)[:60], offset), x.lineno)
+    return n
+
+
+# ---------------------------------------------------------------------------------------------
+# INDEX-mod-compare: `a % L == b` is the periodic-equality test `(a - b) % L == 0` only if b is
+# already reduced to [0, L). With b a parameter / loop variable that may lie outside the first unit
+# cell (strings starting at an inner operator of a multi-site term) the test is never true.
+def check_mod_compare(prog, rep, rels, rule='INDEX-mod-compare'):
+    import ast
+    from .core import params, unparse, key_text
+
+    def scan(f):
+        out = []
+        ps = set(params(f))
+        for c in ast.walk(f):
+            if isinstance(c, ast.Compare) and len(c.ops) == 1 and isinstance(
+                    c.ops[0], (ast.Eq, ast.NotEq)):
+                l, r = c.left, c.comparators[0]
+                for a, b in ((l, r), (r, l)):
+                    if isinstance(a, ast.BinOp) and isinstance(a.op, ast.Mod) and isinstance(
+                            b, ast.Name) and b.id in ps:
+                        out.append((c, b.id))
+        return out
+    fx = ast.parse("def f(self, i, j):\n    for k in range(i + 1, j):\n"
+                   "        if k % self.L == i:\n            pass\n"
+                   "        if (k - i) % self.L == 0:\n            pass\n").body[0]
+    rep.control(rule, len(scan(fx)) == 1)
+    n = 0
+    for rel in rels:
+        m = prog.module(rel)
+        rep.unit(m)
+        for q, f in m.functions.items():
+            n += 1
+            for c, b in scan(f):
+                rep.violation(rule, m, q, 'mod-vs-unreduced:' + b,
+                              '`%s` compares a reduced index with the parameter `%s`, which is not '
+                              'reduced modulo the period: for %s outside the first unit cell the '
+                              'test never holds (use `(a - %s) %% L == 0`)' %
+                              (unparse(c)[:50], b, b, b), c.lineno)
+    rep.instance(rule, {'modules': list(rels), 'functions_scanned': n})
+    return n
